@@ -118,3 +118,28 @@ Example C03_program_nonvacuous :
   /\ taint_stmts (p_stmts c03_example) []
      = Some [("d", false); ("r", true); ("c", true); ("a", false); ("k", false); ("u", false); ("s", true)].
 Proof. split; [eexists; split; [vm_compute; reflexivity | reflexivity] | vm_compute; reflexivity]. Qed.
+
+(* ---- step level, for ANY tracer state and ANY scalar operand wrappers, whatever produced them (inputs, earlier
+   operations, accessors of n-tuples and objects, parameters of nada functions, elements inside map / reduce bodies):
+   x, y, z say "this operand may carry a secret"; if the flag of the result is set, the value returned — and the
+   operation recorded for it — is typed secret.  public_equals and to_public are the two declassifiers. *)
+Theorem C03_binary_step : forall o ta ida va tb idb vb (x y : bool) s w s1,
+  do_binop GenScalar.G o (WScalar ta ida va) (WScalar tb idb vb) s = Ok (w, s1) ->
+  (x = true -> fst ta = MSecret) -> (y = true -> fst tb = MSecret) -> ScalarInv.fresh_store s ->
+  ScalarInv.step_ok bool PT s s1 w (if C02Proofs.op_eqb o OPublicEquals then false else x || y).
+Proof. exact C03Program.binop_ok. Qed.
+Print Assumptions C03_binary_step.
+
+Theorem C03_unary_step : forall u ta ida va (x : bool) s w s1,
+  do_unop GenScalar.G u (WScalar ta ida va) s = Ok (w, s1) ->
+  (x = true -> fst ta = MSecret) -> ScalarInv.idlink s ida ta -> ScalarInv.fresh_store s ->
+  ScalarInv.step_ok bool PT s s1 w (match u with UInvert => x | UToPublic => false end).
+Proof. exact C03Program.unop_ok. Qed.
+Print Assumptions C03_unary_step.
+
+Theorem C03_if_else_step : forall tc idc vc ta ida va tb idb vb (x y z : bool) s w s1,
+  do_ifelse GenScalar.G (WScalar tc idc vc) (WScalar ta ida va) (WScalar tb idb vb) s = Ok (w, s1) ->
+  (x = true -> fst tc = MSecret) -> (y = true -> fst ta = MSecret) -> (z = true -> fst tb = MSecret) ->
+  ScalarInv.fresh_store s -> ScalarInv.step_ok bool PT s s1 w (x || y || z).
+Proof. exact C03Program.ifelse_ok. Qed.
+Print Assumptions C03_if_else_step.
